@@ -205,7 +205,13 @@ def _U_definition(f: Func, name: str):
     defs = single_defs(f)
     e = defs.get(name)
     if e is None:
-        return None
+        # the matrix may be written in place (no local of its own): `name` is then the expression text
+        try:
+            e = ast.parse(name, mode="eval").body
+        except SyntaxError:
+            return None
+        if isinstance(e, ast.Name):
+            return None
     e = inline(f, e, defs=defs)
     # strip reshape / np.array
     while isinstance(e, ast.Call):
